@@ -109,7 +109,7 @@ func newDrv(a common.Args) *drv {
 	d.deleg = w.Clients[3]
 	d.burners = []*world.Key{w.Clients[0], w.Clients[1], w.ByName["p1"], w.ByName["p2"]}
 	for _, n := range []string{"e1", "e2", "e3"} {
-		d.eths[n] = "0x" + encryption.Hash("verif eth "+n)[:40]
+		d.eths[n] = "0x" + encryption.Hash("verif eth " + n)[:40]
 		d.ethNames = append(d.ethNames, n)
 	}
 	d.eths[""] = ""
@@ -570,11 +570,12 @@ func (d *drv) authOp(s step) {
 	d.emit("Auth", rec.M{"op": s.Op, "a": k.Name}, res, pre, post, s.Op)
 }
 
-// cfgOp changes percent_authorizers with the real update-global-config transaction.
+// cfgOp changes percent_authorizers with the real update-global-config transaction (min_stake is raised
+// to one unit with it: the node's Validate refuses the 0 of harness/config/sc.yaml).
 func (d *drv) cfgOp(s step) {
 	w := d.w
 	pre := d.balances()
-	res := w.DoRec(d.rc, d.sc(w.Owner, "update-global-config", map[string]interface{}{"fields": map[string]string{"percent_authorizers": s.V}}, 0), nil)
+	res := w.DoRec(d.rc, d.sc(w.Owner, "update-global-config", map[string]interface{}{"fields": map[string]string{"percent_authorizers": s.V, "min_stake": "0.0000000001"}}, 0), nil)
 	post := d.balances()
 	d.emit("Auth", rec.M{"op": "cfg", "a": s.V}, res, pre, post, "cfg")
 }
